@@ -85,7 +85,7 @@ def main():
         for n, s in sorted(MUTANTS.items()):
             print("%-40s %-14s %s" % (n, ",".join(s["props"]), s["change"]))
         return 0
-    results_path = os.path.join(VERIF, "mutants", "RESULTS.json")
+    results_path = os.environ.get("VF_SENS_RESULTS") or os.path.join(VERIF, "mutants", "RESULTS.json")
     try:
         results = json.load(open(results_path))
     except (OSError, ValueError):
